@@ -125,6 +125,23 @@ def random_trace(rng, nsteps):
     return tr
 
 
+GEN_INIT = [{"a": 0, "b": -1}, {"a": 1, "b": 1}, {"a": 0}]      # LoDSMEvents!InitSt
+
+
+def replay_behaviour(hist):
+    """Replays one TLC-generated behaviour (a sequence of events from LoDSMGen) on the real class."""
+    s = Session([dict(x) for x in GEN_INIT])
+    tr = {"init": {"items": [to_abs(x) for x in s.keep], "lists": [[s.ids[id(it)] for it in list.__iter__(s.lists[0])]]},
+          "steps": []}
+    for e0 in hist:
+        e = {"x": e0["x"], "o": e0["o"], "a": e0["a"]}
+        e["obs"] = s.step(e)
+        tr["steps"].append(e)
+        if e["obs"]["err"]:
+            break
+    return tr
+
+
 def sig_of(clause, tr, step):
     e = tr["steps"][step - 1]
     ops_before = [s["a"]["op"] for s in tr["steps"][:step - 1]]
@@ -154,6 +171,17 @@ def run(ctx):
     rng = ctx.rng
     ntr = 1500 if quick else 20000
     traces = [random_trace(rng, rng.randint(2, 7)) for _ in range(ntr)]
+    # spec -> code: every behaviour of the session machine enumerated by TLC (LoDSMGen) is replayed call by call
+    gcfg = "INIT Init\nNEXT Next\nINVARIANT Inv\nCONSTANTS\n  MaxLists = %d\n  MaxItems = 12\n"
+    rg = ctx.model_check("LoDSMGen", cfg_text=gcfg % 3, timeout=3000)
+    behaviours = [j["hist"] for j in rg.json_lines if "hist" in j]
+    if not quick:
+        rg4 = ctx.model_check("LoDSMGen", cfg_text=gcfg % 4, timeout=3400, heap="12g")
+        b4 = [j["hist"] for j in rg4.json_lines if "hist" in j]
+        behaviours += rng.sample(b4, min(len(b4), 20000))
+    ctx.extra["tlc_generated_behaviours_replayed"] = len(behaviours)
+    for hist in behaviours:
+        traces.append(replay_behaviour(hist))
     nsteps = sum(len(t["steps"]) for t in traces)
     bad = ctx_validate_traces(ctx, traces)
     for ti, step, clause in bad:
